@@ -549,9 +549,52 @@ def _install_codec():
     MementoCodec.encode_memento = classmethod(encode_memento) if is_cls else staticmethod(encode_memento)
 
 
+# ---- qualified names (C12): every name the tests give a function -------------------------------------------------
+_qns = {}
+
+
+def _install_names():
+    from twosigma.memento.reference import FunctionReference
+    orig = FunctionReference.__init__
+    if getattr(orig, "__wrapped_by_verif__", False):
+        return
+
+    def __init__(self, *a, **kw):
+        orig(self, *a, **kw)
+        try:
+            qn = self.qualified_name
+            if isinstance(qn, str) and qn not in _qns:
+                _qns[qn] = _cur_test[0]
+        except Exception:
+            pass
+
+    __init__.__wrapped_by_verif__ = True
+    FunctionReference.__init__ = __init__
+
+
+def _parse_events():
+    from twosigma.memento.reference import FunctionReference
+    out = []
+    for qn, test in _qns.items():
+        ev = {"op": "Parse", "name": list(qn), "cluster": [], "module": [], "function": [], "hasver": False, "version": [],
+              "exc": "", "qn": qn, "test": test}
+        try:
+            parts = FunctionReference.parse_qualified_name(qn)
+            ev["cluster"] = list(parts["cluster"] or "")
+            ev["module"] = list(parts["module"] or "")
+            ev["function"] = list(parts["function"] or "")
+            ev["hasver"] = parts["version"] is not None
+            ev["version"] = list(parts["version"] or "")
+        except Exception as e:
+            ev["exc"] = "%s: %s" % (type(e).__name__, str(e)[:120])
+        out.append(ev)
+    return out
+
+
 def install():
     _install_args()
     _install_codec()
+    _install_names()
     from twosigma.memento.storage_base import StorageBackendBase
     from twosigma.memento.storage_memory import MemoryStorageBackend
     from twosigma.memento.storage_null import NullStorageBackend
@@ -568,7 +611,7 @@ def dump():
     out = os.environ["VERIF_REC_OUT"]
     doc = {"events": _events,
            "stores": [{"id": s["id"], "kind": s["kind"], "cache": s["cache"], "roots": s["roots"]} for s in _stores.values()],
-           "mementos": _memrecs,
+           "mementos": _memrecs, "names": _parse_events(),
            "args": [r for r in _argrecs if r is not None], "args_outside_domain": dict(_outside),
            "counts": {"values": len(_values), "functions": len(_fid.t), "mementos": len(_mid.t)}}
     with open(out, "w") as f:
